@@ -1876,7 +1876,26 @@ type objectMetadata struct {
 // fill out the user metadata map with the metadata for the object
 // and return object meta properties as `ObjectMetadata`
 func (p *Posix) loadObjectMetaData(bucket, object string, fi *os.FileInfo, m map[string]string) objectMetadata {
-	ents, err := p.meta.ListAttributes(bucket, object)
+	return p.loadFileMetaData(nil, bucket, object, fi, m)
+}
+
+// fileAttrLister is implemented by metadata stores that keep the
+// attributes with the file itself and can list them through an open file
+type fileAttrLister interface {
+	ListAttributesFile(f *os.File) ([]string, error)
+}
+
+// loadFileMetaData is loadObjectMetaData reading through the open object
+// file f (when not nil), so that all attributes are the ones of that very
+// file even if the object name is replaced concurrently
+func (p *Posix) loadFileMetaData(f *os.File, bucket, object string, fi *os.FileInfo, m map[string]string) objectMetadata {
+	var ents []string
+	var err error
+	if fl, ok := p.meta.(fileAttrLister); ok && f != nil {
+		ents, err = fl.ListAttributesFile(f)
+	} else {
+		ents, err = p.meta.ListAttributes(bucket, object)
+	}
 	if err != nil || len(ents) == 0 {
 		return objectMetadata{}
 	}
@@ -1886,7 +1905,7 @@ func (p *Posix) loadObjectMetaData(bucket, object string, fi *os.FileInfo, m map
 			if !isValidMeta(e) {
 				continue
 			}
-			b, err := p.meta.RetrieveAttribute(nil, bucket, object, e)
+			b, err := p.meta.RetrieveAttribute(f, bucket, object, e)
 			if err != nil {
 				continue
 			}
@@ -1900,7 +1919,7 @@ func (p *Posix) loadObjectMetaData(bucket, object string, fi *os.FileInfo, m map
 
 	var result objectMetadata
 
-	b, err := p.meta.RetrieveAttribute(nil, bucket, object, contentTypeHdr)
+	b, err := p.meta.RetrieveAttribute(f, bucket, object, contentTypeHdr)
 	if err == nil {
 		result.ContentType = backend.GetPtrFromString(string(b))
 	}
@@ -1912,27 +1931,27 @@ func (p *Posix) loadObjectMetaData(bucket, object string, fi *os.FileInfo, m map
 		}
 	}
 
-	b, err = p.meta.RetrieveAttribute(nil, bucket, object, contentEncHdr)
+	b, err = p.meta.RetrieveAttribute(f, bucket, object, contentEncHdr)
 	if err == nil {
 		result.ContentEncoding = backend.GetPtrFromString(string(b))
 	}
 
-	b, err = p.meta.RetrieveAttribute(nil, bucket, object, contentDispHdr)
+	b, err = p.meta.RetrieveAttribute(f, bucket, object, contentDispHdr)
 	if err == nil {
 		result.ContentDisposition = backend.GetPtrFromString(string(b))
 	}
 
-	b, err = p.meta.RetrieveAttribute(nil, bucket, object, contentLangHdr)
+	b, err = p.meta.RetrieveAttribute(f, bucket, object, contentLangHdr)
 	if err == nil {
 		result.ContentLanguage = backend.GetPtrFromString(string(b))
 	}
 
-	b, err = p.meta.RetrieveAttribute(nil, bucket, object, cacheCtrlHdr)
+	b, err = p.meta.RetrieveAttribute(f, bucket, object, cacheCtrlHdr)
 	if err == nil {
 		result.CacheControl = backend.GetPtrFromString(string(b))
 	}
 
-	b, err = p.meta.RetrieveAttribute(nil, bucket, object, expiresHdr)
+	b, err = p.meta.RetrieveAttribute(f, bucket, object, expiresHdr)
 	if err == nil {
 		result.Expires = backend.GetPtrFromString(string(b))
 	}
@@ -3489,7 +3508,10 @@ func (p *Posix) GetObject(_ context.Context, input *s3.GetObjectInput) (*s3.GetO
 
 	objPath := filepath.Join(bucket, object)
 
-	fi, err := os.Stat(objPath)
+	// Open the object first and read size and attributes through the open
+	// file: a concurrent overwrite replaces the name, not this file, so
+	// body, length, ETag and metadata all belong to the same upload.
+	f, err := os.Open(objPath)
 	if errors.Is(err, fs.ErrNotExist) || errors.Is(err, syscall.ENOTDIR) {
 		if versionId != "" {
 			return nil, s3err.GetAPIError(s3err.ErrInvalidVersionId)
@@ -3499,6 +3521,18 @@ func (p *Posix) GetObject(_ context.Context, input *s3.GetObjectInput) (*s3.GetO
 	if errors.Is(err, syscall.ENAMETOOLONG) {
 		return nil, s3err.GetAPIError(s3err.ErrKeyTooLong)
 	}
+	if err != nil {
+		return nil, fmt.Errorf("open object: %w", err)
+	}
+	// the file is handed to the caller as the body on success only
+	keepOpen := false
+	defer func() {
+		if !keepOpen {
+			f.Close()
+		}
+	}()
+
+	fi, err := f.Stat()
 	if err != nil {
 		return nil, fmt.Errorf("stat object: %w", err)
 	}
@@ -3551,15 +3585,15 @@ func (p *Posix) GetObject(_ context.Context, input *s3.GetObjectInput) (*s3.GetO
 	if fi.IsDir() {
 		userMetaData := make(map[string]string)
 
-		objMeta := p.loadObjectMetaData(bucket, object, &fi, userMetaData)
-		b, err := p.meta.RetrieveAttribute(nil, bucket, object, etagkey)
+		objMeta := p.loadFileMetaData(f, bucket, object, &fi, userMetaData)
+		b, err := p.meta.RetrieveAttribute(f, bucket, object, etagkey)
 		etag := string(b)
 		if err != nil {
 			etag = ""
 		}
 
 		var tagCount *int32
-		tags, err := p.getAttrTags(bucket, object)
+		tags, err := p.getFileAttrTags(f, bucket, object)
 		if err != nil && !errors.Is(err, s3err.GetAPIError(s3err.ErrBucketTaggingNotFound)) {
 			return nil, err
 		}
@@ -3589,7 +3623,7 @@ func (p *Posix) GetObject(_ context.Context, input *s3.GetObjectInput) (*s3.GetO
 
 	// If versioning is configured get the object versionId
 	if p.versioningEnabled() && versionId == "" {
-		vId, err := p.meta.RetrieveAttribute(nil, bucket, object, versionIdKey)
+		vId, err := p.meta.RetrieveAttribute(f, bucket, object, versionIdKey)
 		if errors.Is(err, meta.ErrNoSuchKey) {
 			versionId = nullVersionId
 		} else if err != nil {
@@ -3601,30 +3635,22 @@ func (p *Posix) GetObject(_ context.Context, input *s3.GetObjectInput) (*s3.GetO
 
 	userMetaData := make(map[string]string)
 
-	objMeta := p.loadObjectMetaData(bucket, object, &fi, userMetaData)
+	objMeta := p.loadFileMetaData(f, bucket, object, &fi, userMetaData)
 
-	b, err := p.meta.RetrieveAttribute(nil, bucket, object, etagkey)
+	b, err := p.meta.RetrieveAttribute(f, bucket, object, etagkey)
 	etag := string(b)
 	if err != nil {
 		etag = ""
 	}
 
 	var tagCount *int32
-	tags, err := p.getAttrTags(bucket, object)
+	tags, err := p.getFileAttrTags(f, bucket, object)
 	if err != nil && !errors.Is(err, s3err.GetAPIError(s3err.ErrBucketTaggingNotFound)) {
 		return nil, err
 	}
 	if tags != nil {
 		tgCount := int32(len(tags))
 		tagCount = &tgCount
-	}
-
-	f, err := os.Open(objPath)
-	if errors.Is(err, fs.ErrNotExist) {
-		return nil, s3err.GetAPIError(s3err.ErrNoSuchKey)
-	}
-	if err != nil {
-		return nil, fmt.Errorf("open object: %w", err)
 	}
 
 	var checksums s3response.Checksum
@@ -3641,6 +3667,7 @@ func (p *Posix) GetObject(_ context.Context, input *s3.GetObjectInput) (*s3.GetO
 	}
 
 	// using an os.File allows zero-copy sendfile via io.Copy(os.File, net.Conn)
+	keepOpen = true
 	var body io.ReadCloser = f
 	if startOffset != 0 || length != objSize {
 		rdr := io.NewSectionReader(f, startOffset, length)
@@ -3763,7 +3790,9 @@ func (p *Posix) HeadObject(ctx context.Context, input *s3.HeadObjectInput) (*s3.
 
 	objPath := filepath.Join(bucket, object)
 
-	fi, err := os.Stat(objPath)
+	// Open the object and read size and attributes through the open file,
+	// so that they all belong to the same upload (see GetObject).
+	f, err := os.Open(objPath)
 	if errors.Is(err, fs.ErrNotExist) || errors.Is(err, syscall.ENOTDIR) {
 		if versionId != "" {
 			return nil, s3err.GetAPIError(s3err.ErrInvalidVersionId)
@@ -3773,6 +3802,12 @@ func (p *Posix) HeadObject(ctx context.Context, input *s3.HeadObjectInput) (*s3.
 	if errors.Is(err, syscall.ENAMETOOLONG) {
 		return nil, s3err.GetAPIError(s3err.ErrKeyTooLong)
 	}
+	if err != nil {
+		return nil, fmt.Errorf("open object: %w", err)
+	}
+	defer f.Close()
+
+	fi, err := f.Stat()
 	if err != nil {
 		return nil, fmt.Errorf("stat object: %w", err)
 	}
@@ -3803,7 +3838,7 @@ func (p *Posix) HeadObject(ctx context.Context, input *s3.HeadObjectInput) (*s3.
 	}
 
 	if p.versioningEnabled() && versionId == "" {
-		vId, err := p.meta.RetrieveAttribute(nil, bucket, object, versionIdKey)
+		vId, err := p.meta.RetrieveAttribute(f, bucket, object, versionIdKey)
 		if err != nil && !errors.Is(err, meta.ErrNoSuchKey) {
 			return nil, fmt.Errorf("get object versionId: %v", err)
 		}
@@ -3812,9 +3847,9 @@ func (p *Posix) HeadObject(ctx context.Context, input *s3.HeadObjectInput) (*s3.
 	}
 
 	userMetaData := make(map[string]string)
-	objMeta := p.loadObjectMetaData(bucket, object, &fi, userMetaData)
+	objMeta := p.loadFileMetaData(f, bucket, object, &fi, userMetaData)
 
-	b, err := p.meta.RetrieveAttribute(nil, bucket, object, etagkey)
+	b, err := p.meta.RetrieveAttribute(f, bucket, object, etagkey)
 	etag := string(b)
 	if err != nil {
 		etag = ""
@@ -3846,7 +3881,7 @@ func (p *Posix) HeadObject(ctx context.Context, input *s3.HeadObjectInput) (*s3.
 	var checksums s3response.Checksum
 	var cType types.ChecksumType
 	if input.ChecksumMode == types.ChecksumModeEnabled {
-		checksums, err = p.retrieveChecksums(nil, bucket, object)
+		checksums, err = p.retrieveChecksums(f, bucket, object)
 		if err != nil && !errors.Is(err, meta.ErrNoSuchKey) {
 			return nil, fmt.Errorf("get object checksums: %w", err)
 		}
@@ -4591,8 +4626,12 @@ func (p *Posix) GetObjectTagging(_ context.Context, bucket, object string) (map[
 }
 
 func (p *Posix) getAttrTags(bucket, object string) (map[string]string, error) {
+	return p.getFileAttrTags(nil, bucket, object)
+}
+
+func (p *Posix) getFileAttrTags(f *os.File, bucket, object string) (map[string]string, error) {
 	tags := make(map[string]string)
-	b, err := p.meta.RetrieveAttribute(nil, bucket, object, tagHdr)
+	b, err := p.meta.RetrieveAttribute(f, bucket, object, tagHdr)
 	if errors.Is(err, fs.ErrNotExist) || errors.Is(err, syscall.ENOTDIR) {
 		return nil, s3err.GetAPIError(s3err.ErrNoSuchKey)
 	}
